@@ -69,8 +69,8 @@ Proof.
   { unfold matchIndented. cbv zeta. unfold codeBlockIndentLimit. destruct (Z.ltb_spec (indent p) 4); [destruct (negb _); [exact H|]|]; cbn [snd];
       apply N3_consumeIndent; try exact H; lia. }
   destruct (_ =? HTMLBlockKind).
-  { unfold matchHTML. destruct (htmlEnd _ _); [|exact H]. cbn [snd]. apply N3_consumeLine.
-    destruct (negb _); [apply N3_collectInline|]; exact H. }
+  { unfold matchHTML. destruct (htmlEnd _ _); [|exact H]. destruct (isRestBlank _); [exact H|]. cbn [snd]. apply N3_consumeLine.
+    apply N3_collectInline; exact H. }
   exact H.
 Qed.
 Lemma N3_descend_loop : forall fuel p d, N3 p -> N3 (snd (descend_loop fuel p d)).
